@@ -48,10 +48,10 @@ static void run() {
     for (size_t i = 0; i < ts.size(); i++) {
         if ((int)(i % (size_t)a.nworkers) != a.worker) continue;
         Case c; c.set("t", ts[i]); c.set("secret", hex(std::string(19, (char)(i * 7)))); c.set("chain", hex(std::string("\x00\x01\x02\x01\x00\x02", 6))); c.set("lang", REG->at(i).name_en); c.set("coin", (uint64_t)(i % 2048));
-        set_current(c); std::string m = oracle(c); done++; if (!m.empty()) { record_failure(c, m); return; }
+        set_current(c); std::string m = oracle(c); done++; if (!m.empty() && enum_fail(c, m)) return;
     }
     ev.enumerated["clock values at every month boundary -1/0/+1 and special values"] += done;
-    rc_run("c11-random", a.n(20000, 600000), 100, [&]() {
+    rc_run("c11-random", a.n(40000, 600000), 100, [&]() {
         uint64_t t = *rc::gen::weightedOneOf<uint64_t>({{4, rc::gen::map(vf::u64(), [](uint64_t x) -> uint64_t { return model::EPOCH + x % (1024 * model::STEP); })}, {2, vf::u64()},
             {2, rc::gen::map(rc::gen::pair(in_range<uint64_t>(0, 1026), in_range<int>(-2, 3)), [](std::pair<uint64_t, int> p) -> uint64_t { return model::EPOCH + p.first * model::STEP + (uint64_t)(int64_t)p.second; })},
             {1, rc::gen::map(vf::u64(), [](uint64_t x) -> uint64_t { return x % model::EPOCH; })}, {1, rc::gen::map(vf::u64(), [](uint64_t x) -> uint64_t { return model::EPOCH + 1024 * model::STEP + x % (1ull << 40); })}, {1, rc::gen::element<uint64_t>(UINT64_MAX, UINT64_MAX - 1, 0, model::EPOCH, model::EPOCH - 1)}});
